@@ -41,6 +41,10 @@ func init() {
 			for _, u := range enum.SeqUnits("bytes", "utf8", len(enum.ByteAlphabets["utf8"]), L+1, 2) {
 				us = append(us, core.Unit{Name: u})
 			}
+			// letters that spell the keywords in every case, blank and colon
+			for _, u := range enum.SeqUnits("bytes", "kw", len(enum.ByteAlphabets["kw"]), L, 2) {
+				us = append(us, core.Unit{Name: u})
+			}
 			return us
 		},
 		Run: func(w *core.Worker, tier, unit string) {
@@ -260,6 +264,24 @@ func c16Eval(c core.Case) (res core.Result) {
 // must-fail classes of the statement.
 func independentMustFail(in string) string {
 	nq, ns, nd, nb := strings.Count(in, `"`), strings.Count(in, `'`), strings.Count(in, "/"), strings.Count(in, `\`)
+	if nb == 0 && nd == 0 && nq+ns > 0 {
+		// only the quote character that opened a phrase closes it
+		var open byte
+		for i := 0; i < len(in); i++ {
+			c := in[i]
+			if c != '"' && c != '\'' {
+				continue
+			}
+			if open == 0 {
+				open = c
+			} else if c == open {
+				open = 0
+			}
+		}
+		if open != 0 {
+			return "unterminated quoted phrase (opened by " + string(open) + ")"
+		}
+	}
 	if nb == 0 {
 		if nq == 1 && ns == 0 && nd == 0 {
 			return "single unterminated double quote"
